@@ -6,6 +6,37 @@ import vfx
 _ATIME = re.compile(r"(meta:(?:file|dir):\d+:(?:none|auto|set:-?\d+):(?:none|auto|set:-?\d+)):(?:none|auto|set:-?\d+)")
 
 
+def run_async(cases, tag, extra=None):
+    """the cases through the async port (vfsx --async): {(kind, case, step): line}"""
+    import os
+    import subprocess
+    from concurrent.futures import ThreadPoolExecutor
+    exe = os.path.join(vfx.HARNESS, "target", "debug", "vfsx")
+    os.makedirs(vfx.WORK, exist_ok=True)
+    pieces, _ = vfx.split_cases("".join(c.text() for c in cases), vfx.NPROC)
+    jobs = []
+    for i, pc in enumerate(pieces):
+        f = os.path.join(vfx.WORK, "%s_%d.cases" % (tag, i))
+        open(f, "w").write(pc)
+        jobs.append([exe, "--async", f] + (extra or []))
+
+    def run(job):
+        r = subprocess.run(job, stdout=subprocess.PIPE, stderr=subprocess.PIPE, text=True, timeout=3000)
+        return r.returncode, r.stdout, r.stderr
+    with ThreadPoolExecutor(max_workers=vfx.NPROC) as ex:
+        res = list(ex.map(run, jobs))
+    out = {}
+    for (rc, so, se), job in zip(res, jobs):
+        if rc != 0:
+            raise RuntimeError("async harness failed on %s: %s" % (job[2], se[-1500:]))
+        for line in so.splitlines():
+            parts = line.split(" ", 3)
+            if len(parts) == 4:
+                out[(parts[0], parts[1], int(parts[2]))] = parts[3]
+        os.remove(job[2])
+    return out
+
+
 def mask_phys_atime(case, step, optext, line):
     """On a real disk the access time is the kernel's business (relatime) as soon as anything is opened or read: it is
     compared in a metadata() call only while nothing but stat-like calls and time setters (metadata, exists,
